@@ -124,3 +124,89 @@ func c16MaxSize() uint32 {
 	}
 	return 0x7fffffff
 }
+
+func init() {
+	vrtHarnesses["VerifC16Resupply"] = VerifC16Resupply
+}
+
+// c16Reply9212 decodes a 0x9212 reply frame: result byte and (offset, length) pairs.
+func c16Reply9212(fr []byte, nameLen int) (ok bool, result byte, ranges [][2]uint32) {
+	ok, rid, body := vUnframe(fr)
+	if !ok || rid != 0x9212 || len(body) < 1+nameLen+3 {
+		return false, 0, nil
+	}
+	result = body[1+nameLen+1]
+	cnt := int(body[1+nameLen+2])
+	if len(body) != 1+nameLen+3+8*cnt {
+		return false, 0, nil
+	}
+	for i := 0; i < cnt; i++ {
+		o := body[1+nameLen+3+8*i:]
+		ranges = append(ranges, [2]uint32{uint32(o[0])<<24 | uint32(o[1])<<16 | uint32(o[2])<<8 | uint32(o[3]), uint32(o[4])<<24 | uint32(o[5])<<16 | uint32(o[6])<<8 | uint32(o[7])})
+	}
+	return true, result, ranges
+}
+
+// VerifC16Resupply: over the real connection: a file whose 0x1212 arrives while a chunk is still
+// missing is answered "retransmit" with exactly the missing range; after that range is resent the
+// next 0x1212 is answered "complete"; a second, fully received file is then answered "complete" too.
+func VerifC16Resupply() {
+	d := vDialects[vrt_Choose("dialect", 2)]
+	phone := vrt_Bytes("phone", 6)
+	vNoEsc(phone)
+	vrt_Assume(phone[0]>>4 != 0)
+	size := 2 + vrt_Choose("size", 2)
+	cut := 1 + vrt_Choose("cut", size-1)
+	missingFirst := vrt_Choose("missingFirst", 2) == 1
+	fa := vFile{name: "fa", data: vrt_Bytes("contentA", size)}
+	fb := vFile{name: "fb", data: vrt_Bytes("contentB", 1)}
+	fill := func(label string, k int) []byte {
+		b := make([]byte, k)
+		for i := range b {
+			b[i] = 'A'
+		}
+		return b
+	}
+	serial := uint16(1)
+	ctl := func(id uint16, body []byte) []byte {
+		fr := vCtl(id, phone, serial, body)
+		serial++
+		vAssumeNoEscape(fr)
+		return fr
+	}
+	present, missing := [2]int{0, cut}, [2]int{cut, size - cut}
+	if missingFirst {
+		present, missing = missing, present
+	}
+	reads := [][]byte{
+		ctl(0x1210, v1210Body(d, []vFile{fa, fb}, fill)),
+		ctl(0x1211, v1211Body(fa)),
+		vChunk(d, fa, present[0], present[1]),
+		ctl(0x1212, v1211Body(fa)), // reply index 2: retransmit [missing]
+		vChunk(d, fa, missing[0], missing[1]),
+		ctl(0x1212, v1211Body(fa)), // reply index 3: complete
+		ctl(0x1211, v1211Body(fb)),
+		vChunk(d, fb, 0, 1),
+		ctl(0x1212, v1211Body(fb)), // reply index 5: complete
+	}
+	conn := &vConn{reads: reads, errAt: -1}
+	ev := &vEvents{}
+	newConnection(conn, d, nil, ev).run()
+	vrt_Assert(len(conn.writes) == 6, "each control frame must be answered exactly once")
+	ok, res, rg := c16Reply9212(conn.writes[2], 2)
+	vrt_Assert(ok && res == 1 && len(rg) == 1 && rg[0][0] == uint32(missing[0]) && rg[0][1] == uint32(missing[1]), "incomplete file must be answered 'retransmit' with exactly the missing range")
+	ok, res, rg = c16Reply9212(conn.writes[3], 2)
+	vrt_Assert(ok && res == 0 && len(rg) == 0, "after the missing range was resent the completion response must say complete")
+	ok, res, rg = c16Reply9212(conn.writes[5], 2)
+	vrt_Assert(ok && res == 0 && len(rg) == 0, "a fully received file must be answered complete (no stale ranges from an earlier file)")
+	n := 0
+	for _, e := range ev.events {
+		if body, has := e.complete["fa"]; has {
+			n++
+			vrt_Assert(vrt_BytesEq(body, fa.data), "resupplied file content differs from the original")
+		}
+	}
+	vrt_Assert(n >= 1, "resupplied file never reported complete")
+	vrt_Cover("gap-at-start", missingFirst)
+	vrt_Cover("gap-at-end", !missingFirst)
+}
